@@ -32,6 +32,11 @@ def gen_params(rng, idx, tier):
         # the data file is a symbolic link to a file on another file system
         {'t': ['B', 'C'], 'u': None, 'u_file': None, 'invocations': 2, 'iterations': 1, 'crits': 1, 'profile': False,
          'link': 'other_fs'},
+        # text fields with characters that str.splitlines treats as line breaks but file iteration does
+        # not (they are written as they are into the measurement lines), and a data file name of NAME_MAX bytes
+        {'t': ['B', 'C'], 'u': ['X'], 'u_file': None, 'invocations': 2, 'iterations': 1, 'crits': 1, 'profile': False,
+         'text_fields': {'variable_values': [u'a\u2028b\x0cc'], 'input_sizes': [u'1\x0b2\x85\x1c']},
+         'long_name': [255, True]},
         # the data file is in another directory than the working directory, and a relative link
         {'t': ['B', 'C', 'D'], 'u': ['X', 'Y'], 'u_file': None, 'invocations': 2, 'iterations': 2, 'crits': 0,
          'profile': False, 'data_dir': 'out', 'link': 'relative'},
@@ -67,6 +72,9 @@ def gen_params(rng, idx, tier):
             'invocations': rng.randint(1, 3), 'iterations': 1 if profile else rng.randint(1, 3),
             'crits': 0 if profile else rng.randint(0, 2), 'profile': profile,
             'damaged': [rng.randint(1, 5), rng.randint(0, 10 ** 6)] if rng.random() < 0.35 else None,
+            'text_fields': rng.choice([None, None, {'variable_values': [u'v\u2029w']}, {'input_sizes': [u'\x1dz\x1e']},
+                                       {'variable_values': [u'p\x0cq'], 'input_sizes': [u'3\u0085']}]),
+            'long_name': rng.choice([None, None, None, [255, False], [243, False], [250, True]]),
             'link': rng.choice([None, None, 'other_fs', 'same_fs', 'relative']),
             'data_dir': rng.choice([None, None, 'out'])}
 
@@ -133,8 +141,20 @@ def select(params, exp, filters):
     return out
 
 
+def base_name(params):
+    """name of the first data file; `long_name`: [bytes, multi-byte?] - up to NAME_MAX = 255 bytes"""
+    ln = params.get('long_name')
+    if not ln:
+        return 't.data'
+    n, multi = ln
+    n -= len('.profiles') if params['profile'] else 0
+    stem = (u'\u00e4' * ((n - 5) // 2)) if multi else 'd' * (n - 5)
+    pad = 'x' * (n - 5 - len(stem.encode('utf-8')))
+    return stem + pad + '.data'
+
+
 def file_of(params, key_tuple):
-    name = (params.get('data_dir') + '/' if params.get('data_dir') else '') + 't.data'
+    name = (params.get('data_dir') + '/' if params.get('data_dir') else '') + base_name(params)
     if key_tuple[0] == 'U' and params['u_file']:
         name = params['u_file']
     if key_tuple[0] == 'V' and params.get('v_file'):
@@ -154,8 +174,9 @@ class World(object):
         second = {'benchmarks': params['u'], 'data_file': params['u_file']} if params['u'] else None
         third = {'benchmarks': params['v'], 'data_file': params.get('v_file')} if params.get('v') else None
         self.scn = dd.Scenario(wd, params['t'], params['invocations'], params['iterations'], params['crits'],
-                               data_file=(params['data_dir'] + '/' if params.get('data_dir') else '') + 't.data',
-                               second_exp=second, profile=params['profile'], third_exp=third)
+                               data_file=(params['data_dir'] + '/' if params.get('data_dir') else '') + base_name(params),
+                               second_exp=second, profile=params['profile'], third_exp=third,
+                               text_fields=params.get('text_fields'))
         r = self.scn.run(filters=['all'])
         self.problem = None
         if r.crash or r.exit not in (0, 1):
@@ -180,7 +201,7 @@ class World(object):
             store = os.path.join(self.shm, 'store-' + os.path.basename(wd)) if params['link'] == 'other_fs' \
                 else os.path.join(wd, 'store')
             os.makedirs(store, exist_ok=True)
-            target = os.path.join(store, os.path.basename(f) + '.real')
+            target = os.path.join(store, 'real' + ('.profiles' if params['profile'] else '.data'))
             self.link = (f, target, os.path.relpath(target, os.path.dirname(self.paths[0]))
                          if params['link'] == 'relative' else target)
             self.reset()
@@ -362,6 +383,7 @@ def check_selection(acc, world, exp, filters, tmpdir, placement, model_fn, crash
     if obs is not None:
         answers = model_fn(obs['ops'])
         judge_selection(acc, world, obs, answers)
+        judge_faults(acc, world, obs)
         m = multi_op(world, obs, dict(zip(obs['rewritten'], answers)))
         if m is not None:
             judge_multi(acc, world, obs, model_fn([m])[0])
@@ -394,8 +416,85 @@ def observe_selection(acc, world, exp, filters, tmpdir, placement, crash_points)
             acc.impl_traces += 1
             acc.count('crash-runs')
             crashes.append((k, cr['exit'], world.survivors() if cr['exit'] == 'killed' else None))
+    faults = []
+    if crash_points and rewritten and getattr(crash_points, 'faults', False):
+        for (k, err) in fault_points(events):
+            world.reset()
+            fr = drive_fs.run_traced(session_fn(world, ['-r'], exp, filters), world.paths, tmpdir, fault=(k, err))
+            acc.impl_traces += 1
+            acc.count('fault-runs')
+            faults.append((k, err, fr))
     return {'inp': inp, 'sel': sel, 'same_fs': same_fs, 'res': res, 'rewritten': rewritten, 'ops': ops,
-            'crashes': crashes}
+            'crashes': crashes, 'faults': faults}
+
+
+def fault_points(events):
+    """(index of the mutating call, errno): an OSError at each kind of file-system call of the rewrite"""
+    out = []
+    kinds = {}
+    for i, e in enumerate(events):
+        kinds.setdefault(e[0], []).append(i)
+    if 'mktemp' in kinds:
+        out += [(kinds['mktemp'][0], 'ENAMETOOLONG'), (kinds['mktemp'][0], 'EACCES'), (kinds['mktemp'][-1], 'ENOSPC')]
+    if 'write' in kinds:
+        w = kinds['write']
+        out += [(w[0], 'ENOSPC'), (w[len(w) // 2], 'ENOSPC'), (w[-1], 'EIO')]
+    if 'close' in kinds:
+        out += [(kinds['close'][0], 'ENOSPC')]
+    for k in ('replace', 'rename', 'move'):
+        if k in kinds:
+            out += [(kinds[k][0], 'EXDEV'), (kinds[k][-1], 'EACCES')]
+    return out
+
+
+def judge_faults(acc, world, obs):
+    """an OSError inside the rewrite: either the rewrite happened exactly, or the session stops with an
+    error before it executes anything and every data file is unchanged - never "nothing removed and the
+    selected runs executed again on top of the old data" """
+    params = world.params
+    for (k, err, fr) in obs['faults']:
+        inp = dict(obs['inp'], fault_at_call=k, errno=err)
+        events = obs['res']['events']
+        kind = op_of_event(events[k]) if k < len(events) else 'end'
+        acc.count('fault-at:' + kind.split(':')[0] + ':' + err)
+        acc.case(nontrivial_key=(str(params), obs['inp']['experiment'], tuple(obs['inp']['filters']), obs['inp']['tmp'],
+                                 'fault', k, err))
+        sig = {'fault_at': kind.split(':')[0], 'errno': err}
+        if fr['exit'] != 'ok':
+            acc.disagree('c14: traced child did not finish (fault run)', inp, fr, None, THEOREMS)
+            continue
+        status = fr['result']['status']
+        starts = fr['result']['starts']
+        if status.startswith('crash') or status == 'thread_exc':
+            acc.oracle_fail('fault_handled', inp, {'status': status, 'crash': fr['result']['crash']},
+                            dict(sig, outcome='traceback'))
+            continue
+        stopped = status == 'ui_error'
+        for f in world.files:
+            p = os.path.join(world.scn.wd, f)
+            if stopped:
+                # nothing was executed; every file is unchanged - or, when several files are rewritten one
+                # after the other and an earlier one was already done, exactly rewritten
+                got = fr['finals'].get(p)
+                want = world.expected_new(f, obs['sel']) if f in obs['rewritten'] else world.old[f]
+                same = got == world.old[f] or got == want
+                if params.get('damaged') and not same:
+                    same = strip_other(got) in (strip_other(world.old[f]), strip_other(want))
+                if not same or starts:
+                    acc.oracle_fail('fault_handled', inp, {'file': f, 'status': status, 'starts': len(starts),
+                                                           'file_unchanged': got == world.old[f]},
+                                    dict(sig, outcome='stopped_but_changed_or_executed'))
+            else:
+                snap = fr['snapshots'].get(p)
+                want = world.expected_new(f, obs['sel']) if f in obs['rewritten'] else world.old[f]
+                if params.get('damaged'):
+                    snap, want = strip_other(snap), strip_other(want)
+                if snap != want:
+                    acc.oracle_fail('fault_handled', inp,
+                                    {'file': f, 'status': status, 'starts': len(starts),
+                                     'file_unchanged': fr['snapshots'].get(p) == world.old[f]},
+                                    dict(sig, outcome='nothing_removed_and_executed_again'
+                                         if fr['snapshots'].get(p) == world.old[f] and starts else 'other'))
 
 
 def judge_selection(acc, world, obs, model_answers):
@@ -711,6 +810,16 @@ class _ModelOnly(object):
     model = lib.Check.model
 
 
+def safe_scenario_job(job):
+    """for the worker pool: an exception of the harness travels to the parent as a value (a worker
+    that dies or raises must not leave the pool hanging)"""
+    try:
+        return scenario_job(job)
+    except BaseException:      # pylint: disable=broad-except
+        import traceback
+        return ('harness-exception', job[1], traceback.format_exc())
+
+
 def scenario_job(job):
     """one scenario: all selections on both placements, crash runs, -c; returns an Acc"""
     import random
@@ -735,7 +844,8 @@ def scenario_job(job):
         for placement, tmpdir in (('same_fs', my_same), ('other_fs', my_shm)):
             # quick: selection 1 is killed on both temp placements, selection 2 with the temp dir on /dev/shm
             do_crash = (j == 1 or (j == 2 and placement == 'other_fs')) if quick else (j < 6)
-            cp = crash_selector(tier, rng, exhaustive=not quick) if do_crash else None
+            cp = crash_selector(tier, rng, exhaustive=not quick,
+                                faults=(j == 1 and placement == 'same_fs') or not quick) if do_crash else None
             obs = observe_selection(acc, world, exp, filters, tmpdir, placement, cp)
             if obs is not None:
                 pending.append(obs)
@@ -748,6 +858,7 @@ def scenario_job(job):
     for o in pending:
         n = len(o['ops'])
         judge_selection(acc, world, o, all_ans[pos:pos + n])
+        judge_faults(acc, world, o)
         m = multi_op(world, o, dict(zip(o['rewritten'], all_ans[pos:pos + n])))
         if m is not None:
             mops.append(m)
@@ -767,7 +878,7 @@ def scenario_job(job):
     return acc
 
 
-def crash_selector(tier, rng, exhaustive):
+def crash_selector(tier, rng, exhaustive, faults=False):
     def points(events):
         n = len(events)
         if exhaustive or n <= 40:
@@ -784,6 +895,7 @@ def crash_selector(tier, rng, exhaustive):
         for _ in range(8):
             pts.add(rng.randint(0, n))
         return sorted(p for p in pts if 0 <= p <= n)
+    points.faults = faults
     return points
 
 
@@ -810,6 +922,11 @@ def run_case_file(ck, acc, w, idx, tmp_same, tmp_shm):
     if w.get('crash_before_call') is not None:
         k = w['crash_before_call']
         cp = lambda events, k=k, w=w: [resolve_crash(events, k, w.get('call'), w.get('nth', 0))]
+    if w.get('fault_at_call') is not None or w.get('faults'):
+        # an injected OSError: all fault points of the selection are replayed (there are few)
+        def cp(events):
+            return []
+        cp.faults = True
     check_selection(acc, world, w.get('experiment'), w.get('filters', []), tmpdir,
                     w.get('tmp', 'same_fs'), ck.model, cp)
 
@@ -848,7 +965,7 @@ def run(ck):
                     run_case_file(ck, acc, w, idx, tmp_same, tmp_shm)
                     acc.count('corpus:' + fn[:-5])
                     idx += 1
-        n_scn = 7 if quick else 160
+        n_scn = 8 if quick else 160
         n_sel = 8 if quick else 25
         jobs = [(i, gen_params(ck.rng, i, ck.tier), ck.seed, ck.tier, n_sel, ck.scratch, tmp_same, tmp_shm)
                 for i in range(n_scn)]
@@ -860,7 +977,9 @@ def run(ck):
             import multiprocessing
             nproc = min(10, max(1, (os.cpu_count() or 2) - 2))
             with multiprocessing.get_context('fork').Pool(nproc) as pool:
-                for a in pool.imap_unordered(scenario_job, jobs):
+                for a in pool.imap_unordered(safe_scenario_job, jobs):
+                    if isinstance(a, tuple):
+                        raise lib.InfraError('scenario %s: %s' % (a[1], a[2][-1500:]))
                     a.merge_into(acc)
             ck.notes.append('%d scenarios sharded over %d processes; a kill before every mutating call of the '
                             'first 6 selections of each scenario on both temp placements' % (n_scn, nproc))
@@ -881,7 +1000,8 @@ def replay(ck, data):
         w = {'params': inp['params'], 'experiment': inp.get('experiment'), 'filters': inp.get('filters', []),
              'tmp': inp.get('tmp', 'same_fs'), 'option': inp.get('option'),
              'extra_options': inp.get('extra_options', []), 'failing_executors': inp.get('failing_executors', []),
-             'crash_before_call': inp.get('crash_before_call'), 'call': inp.get('call'), 'nth': inp.get('nth', 0)}
+             'crash_before_call': inp.get('crash_before_call'), 'call': inp.get('call'), 'nth': inp.get('nth', 0),
+             'fault_at_call': inp.get('fault_at_call')}
         run_case_file(ck, acc, w, 0, tmp_same, tmp_shm)
     finally:
         shutil.rmtree(tmp_shm, ignore_errors=True)
